@@ -9,6 +9,7 @@ import (
 	"hash"
 	"io/fs"
 	"os"
+	"strings"
 
 	"github.com/avfs/avfs"
 	"github.com/avfs/avfs/vfs/basepathfs"
@@ -93,6 +94,11 @@ func c16Run(c *rt.Ctx, srcKind, dstKind, fnName string, size int, mode fs.FileMo
 		return nil
 	}
 	_ = srcBase.Chmod(srcPath, mode)
+	if caseNo%3 == 0 && !strings.HasPrefix(fnName, "HashFile") {
+		// the destination already exists, longer than the source and with other permission bits
+		_ = dstBase.WriteFile(dstPath, append(c16Content(size), []byte("-older-and-longer")...), 0o600)
+		_ = dstBase.Chmod(dstPath, []fs.FileMode{0o600, 0o640, 0o444}[caseNo%3+caseNo%2])
+	}
 	plan = &c16Plan{failAt: failAt}
 	var srcFS avfs.VFS = srcBase
 	if srcKind == "RoFS(MemFS)" {
@@ -179,7 +185,7 @@ func init() {
 		Shards: shards(4, 16),
 		Meta: func(tier string) rt.Meta {
 			return rt.Meta{Level: "fault_enumeration", MinEvals: 300, MinDistinct: 20, Exhaustive: true,
-				Rule:        "for every (function, source fs, destination fs, size, mode) scenario: pass 1 records the sequence of FailFS consultations of an unfailed run and checks the post-condition by reading back through the base file systems; pass 2 re-runs the scenario once per index of that sequence with exactly that consultation failing (exhaustive single-fault enumeration, both sides). A nil error must imply equal bytes, equal permission bits and the right digest; a failure injected into open/read/write/sync/stat/chmod/close(dst) must yield a non-nil error. Signature = function | fs pair | injected primitive | error-or-not; non-trivial = a fault was injected.",
+				Rule:        "for every (function, source fs, destination fs, size, mode) scenario - modes include bits a umask of 022 would clear, and in one scenario in three the destination already exists, longer and with other permission bits -: pass 1 records the sequence of FailFS consultations of an unfailed run and checks the post-condition by reading back through the base file systems; pass 2 re-runs the scenario once per index of that sequence with exactly that consultation failing (exhaustive single-fault enumeration, both sides). A nil error must imply equal bytes, equal permission bits and the right digest; a failure injected into open/read/write/sync/stat/chmod/close(dst) must yield a non-nil error. Signature = function | fs pair | injected primitive | error-or-not; non-trivial = a fault was injected.",
 				Assumptions: []string{"a failure of closing the source is not in the property's list: only the post-condition is checked for it", "OsFS legs run in a harness-built directory on tmpfs"}}
 		},
 		Run: func(c *rt.Ctx) {
@@ -189,13 +195,13 @@ func init() {
 				_ = os.MkdirAll(c.Scratch, 0o755)
 				defer os.RemoveAll(c.Scratch)
 			}
-			sizes := []int{0, 1, 32768, 32769, 65537}
-			kinds := []string{"MemFS", "OrefaFS", "OsFS"}
-			modes := []fs.FileMode{0o644, 0o600}
+			sizes := []int{0, 1, 32767, 32768, 32769, 65537}
+			kinds := []string{"MemFS", "OrefaFS", "OsFS", "BasePathFS(MemFS)"}
+			modes := []fs.FileMode{0o600, 0o644, 0o755, 0o400, 0o666, 0o777, 0o604}
+			rounds := 1
 			if !c.Quick() {
-				sizes = []int{0, 1, 32767, 32768, 32769, 65535, 65536, 65537, 100001}
-				kinds = []string{"MemFS", "OrefaFS", "OsFS", "BasePathFS(MemFS)"}
-				modes = []fs.FileMode{0o600, 0o644, 0o755, 0o400}
+				sizes = []int{0, 1, 511, 512, 32767, 32768, 32769, 65535, 65536, 65537, 100001}
+				rounds = len(modes) // every scenario with every mode
 			}
 			fns := []string{"CopyFile", "CopyFileHash/sha256", "CopyFileHash/sha512", "HashFile/sha256"}
 			caseNo := 0
@@ -206,20 +212,22 @@ func init() {
 							continue
 						}
 						for si, size := range sizes {
-							caseNo++
-							if caseNo%c.NShards != c.Shard {
-								continue
-							}
-							mode := modes[(si+caseNo)%len(modes)]
-							p := c16Run(c, sk, dk, fnName, size, mode, -1, caseNo)
-							if p == nil {
-								continue
-							}
-							c.Rep.Count("scenarios", 1)
-							c.Rep.Sample(map[string]any{"fn": fnName, "src": sk, "dst": dk, "size": size, "consultations_unfailed_run": p.seq}, 3)
-							for k := 0; k < len(p.seq); k++ {
-								c16Run(c, sk, dk, fnName, size, mode, k, caseNo)
-								c.Rep.Count("faults_injected", 1)
+							for round := 0; round < rounds; round++ {
+								caseNo++
+								if caseNo%c.NShards != c.Shard {
+									continue
+								}
+								mode := modes[(si+caseNo+int(c.Seed))%len(modes)]
+								p := c16Run(c, sk, dk, fnName, size, mode, -1, caseNo)
+								if p == nil {
+									continue
+								}
+								c.Rep.Count("scenarios", 1)
+								c.Rep.Sample(map[string]any{"fn": fnName, "src": sk, "dst": dk, "size": size, "consultations_unfailed_run": p.seq}, 3)
+								for k := 0; k < len(p.seq); k++ {
+									c16Run(c, sk, dk, fnName, size, mode, k, caseNo)
+									c.Rep.Count("faults_injected", 1)
+								}
 							}
 						}
 					}
